@@ -63,7 +63,20 @@ def fixture_topology():
 
 
 def _select_both(expr, want_source=True):
-    """run the real code on one string: select() and (optionally) eval(select_expression())"""
+    """run the real code on one string: select() and (optionally) eval(select_expression()).
+    The calls are made from a fresh thread, i.e. from an (almost) empty Python call stack, so that
+    a RecursionError does not depend on how deep the caller of this check happens to be: it is only
+    reported when the parser exceeds the default recursion limit even from the top level."""
+    import threading
+
+    box = {}
+    th = threading.Thread(target=lambda: box.update(_select_both0(expr, want_source)))
+    th.start()
+    th.join()
+    return box
+
+
+def _select_both0(expr, want_source):
     top, _ = fixture_topology()
     out = {}
     try:
@@ -327,6 +340,7 @@ def check_leaf_forms(pool, recs, L, tier):
                  f"flipped operands, implicit equality, 2-3 element lists, ranges, =~ patterns; each alone and in "
                  + ("the 3 contexts (x), not (x), !(x)" if tier == "thorough" else "one of the contexts (x), not (x), !(x) in rotation")
                  + f" = {len(cases)} expressions")
+    failed = []
     for (lf, expr, ctx), res in zip(cases, results):
         try:
             v = _judge(expr, res, recs)
@@ -336,13 +350,24 @@ def check_leaf_forms(pool, recs, L, tier):
             n = len(res["select"])
             chk.ok(nontrivial=expr if 0 < n < len(recs) else None, sample={"expr": expr, "n_selected": n})
             continue
-        clause, kind, what, obs, exp = v
         words = lf.text.split()
         kw = words[0] if words[0] in R.ALIAS else words[-1]
-        canon = R.ALIAS.get(kw, kw)
-        wc = f"leaf:{canon}:{op_category(lf.op) if lf.cat != 'B' else 'bool-keyword'}:{ctx}:{kind}"
-        chk.fail(clause, wc, what, {"expr": expr}, observed=obs, expected=exp)
-    return chk
+        failed.append((lf, expr, ctx, v, R.ALIAS.get(kw, kw), op_category(lf.op) if lf.cat != "B" else "bool-keyword"))
+    # witness class: the leaf form when it fails for >= 3 different keywords (a defect of the form),
+    # else keyword + form (a defect of the keyword table); the context only when the form passes alone
+    alone_bad = {lf.text for lf, _, ctx, _, _, _ in failed if ctx == "alone"}
+    kws_per_form = {}
+    for lf, _, _, (clause, _, _, _, _), canon, form in failed:
+        kws_per_form.setdefault((clause, form), set()).add(canon)
+    for lf, expr, ctx, (clause, kind, what, obs, exp), canon, form in sorted(failed, key=lambda f: (f[2] != "alone", len(f[1]))):
+        if ctx != "alone" and lf.text in alone_bad:
+            chk.evaluations += 1
+            continue
+        wc = f"leaf:{form}" if len(kws_per_form[(clause, form)]) >= 3 else f"leaf:{canon}:{form}"
+        if ctx != "alone":
+            wc += f":{ctx}"
+        chk.fail(clause, f"{wc}:{kind}", what, {"expr": expr}, observed=obs, expected=exp)
+    return chk, {lf.text for lf, *_ in failed}
 
 
 def _pick(L, cat, k):
@@ -446,7 +471,7 @@ MAX_PAREN = 6
 
 def check_paren_depth(pool, recs, L, seed, bad_pairs):
     chk = Check("parenthesis-depth", "parse_selection (recursive-descent depth of the infixNotation grammar), Topology.select",
-                bound=f"parenthesis nesting 1..{MAX_PAREN} x 2 shapes (k pairs around one condition; right-nested chain a and (b and (c and (...)))) "
+                bound=f"parenthesis nesting 1..{MAX_PAREN} x 3 shapes (k pairs around one condition; right-nested chain a and (b and (c and (...))); not (not (... x))) "
                       f"x 5 leaf categories x and/&&/or/||",
                 rule="exhaustive; Python's default recursion limit (1000) is left untouched; chains containing an operator pair "
                      "already reported by `operator-pairs` are skipped",
@@ -464,6 +489,11 @@ def check_paren_depth(pool, recs, L, seed, bad_pairs):
                 s, seqs = render(t)
                 if not (pairs_of(seqs) & bad_pairs):
                     cases.append((s, k, "chain"))
+            for sp in NOTS:
+                s = lf.text
+                for i in range(k):
+                    s = f"{sp}({s})"
+                cases.append((s, k, "negation-chain"))
     results = _evaluate_many([c[0] for c in cases], pool)
     limit = {}
     for (expr, k, shape), res in sorted(zip(cases, results), key=lambda cr: cr[0][1]):
@@ -476,7 +506,7 @@ def check_paren_depth(pool, recs, L, seed, bad_pairs):
             continue
         clause, kind, what, obs, exp = v
         limit.setdefault(kind, k)
-        chk.fail(clause, f"parentheses:nesting-depth>={limit[kind]}:{kind}", what + f"  [parenthesis nesting depth {k}]",
+        chk.fail(clause, f"parentheses:nested:{kind}", what + f"  [parenthesis nesting depth {k}]",
                  {"expr": expr}, observed=obs, expected=exp)
     return chk, limit.get("RecursionError")
 
@@ -580,8 +610,7 @@ def _diagnose(tree, recs):
 def check_nesting(pool, recs, L, tier, seed, bad_pairs, paren_limit):
     chk = Check("nesting", "parse_selection (infixNotation), BinaryInfixOperand/UnaryInfixOperand.ast, Topology.select, select_expression",
                 bound="", rule="grammar-directed enumeration, smallest first; leaves rotate through every leaf form (offset by seed); "
-                               "expressions containing an operator pair already reported by `operator-pairs`, or parentheses as deep as a "
-                               "failure of `parenthesis-depth`, are subsumed; non-trivial = selection neither empty nor everything",
+                               "expressions containing an operator pair already reported by `operator-pairs` are subsumed; non-trivial = selection neither empty nor everything",
                 stands_in_for="C12 per-class denotation obligations composed over nesting", exhaustive=True)
     levels = _structures(2)
     if tier == "thorough":
@@ -600,7 +629,7 @@ def check_nesting(pool, recs, L, tier, seed, bad_pairs, paren_limit):
         if s in seen:
             return 0
         seen.add(s)
-        if pairs_of(seqs) & bad_pairs or (paren_limit is not None and _paren_depth(s) >= paren_limit):
+        if pairs_of(seqs) & bad_pairs:
             n_sub += 1
             return 0
         cases.append((s, depth(tree), tree))
@@ -617,7 +646,7 @@ def check_nesting(pool, recs, L, tier, seed, bad_pairs, paren_limit):
                     add(t, True)
     n_d3 = 0
     if tier == "thorough":
-        for _ in range(9000):
+        for _ in range(16000):
             st = _random_structure(rng, 3)
             sc = "mixed" if rng.random() < 0.5 else rng.choice(schemes)
             t = _instantiate(st, sc, L, counter, rng)
@@ -627,7 +656,7 @@ def check_nesting(pool, recs, L, tier, seed, bad_pairs, paren_limit):
                  + ("(not|! |!)" if tier == "thorough" else "(not,! ,! in rotation)")
                  + " x condition category (symbolic cmp, word cmp, implicit/list/range, regex) + a per-node random scheme"
                  + (f", the latter also fully parenthesised; plus {n_d3} seeded random depth-3 trees (sampled, not exhaustive)" if tier == "thorough" else ", minimal parentheses")
-                 + f"; {len(cases)} distinct expressions evaluated, {n_sub} subsumed by an already-reported operator pair / parenthesis depth")
+                 + f"; {len(cases)} distinct expressions evaluated, {n_sub} subsumed by an already-reported operator pair")
     cases.sort(key=lambda c: (c[1], len(c[0])))
     # select_expression is evaluated for every expression in thorough, for every third one in quick
     want = [True if tier == "thorough" else (i % 3 == 0) for i in range(len(cases))]
@@ -645,7 +674,7 @@ def check_nesting(pool, recs, L, tier, seed, bad_pairs, paren_limit):
         clause, kind, what, obs, exp = v
         wc, inp = f"nesting:{kind}", {"expr": expr}
         if kind == "RecursionError":
-            wc = f"parentheses:nesting-depth>={_paren_depth(expr)}:RecursionError"
+            wc = "parentheses:nested:RecursionError"
         elif n_diag < 40:
             n_diag += 1
             dg = _diagnose(tree, recs)
@@ -755,7 +784,9 @@ def run(tier, seed, hint):
     L = leaves()
     workers = min(16, os.cpu_count() or 1)
     with ProcessPoolExecutor(max_workers=workers) as pool:
-        c1 = check_leaf_forms(pool, recs, L, tier)
+        c1, bad_leaves = check_leaf_forms(pool, recs, L, tier)
+        if bad_leaves:  # leaves that fail on their own are not reused as operands (same finding)
+            L = {cat: ([lf for lf in lfs if lf.text not in bad_leaves] or lfs) for cat, lfs in L.items()}
         c2, bad = check_operator_pairs(pool, recs, L, seed)
         c5, paren_limit = check_paren_depth(pool, recs, L, seed, set(bad))
         c3 = check_nesting(pool, recs, L, tier, seed, set(bad), paren_limit)
